@@ -4,11 +4,13 @@
     every key of the pattern's constraints; match_exists = true only if an
     occurrence exists; NaiveManyMatcher reports for pattern number j exactly the
     bindings of the single-pattern matcher of the j-th pattern.
-    Not proved (decided by the exact-sequence comparison of implementation, model
-    and occurrence scan on every generated case): that every occurrence is
-    reported, and reported once (c05_single_complete is the missing theorem). *)
+    For strings also the converse (c05_string_single_exact, _match_exists_exact,
+    _naive_exact): every occurrence is reported, so the reported anchors are
+    exactly the occurrences.  Not proved: the converse for matrices, and that an
+    occurrence is reported once and in scan order (decided by the exact-sequence
+    comparison of implementation, model and occurrence scan on every generated case). *)
 From PM Require Import Model.Prelude Model.Domain Model.Constraint Model.Matchers
-  Model.DomString Model.DomMatrix Spec.Occ Proofs.SingleDomains Proofs.NaiveProofs Proofs.OccProofs.
+  Model.DomString Model.DomMatrix Spec.Occ Proofs.SingleDomains Proofs.NaiveProofs Proofs.OccProofs Proofs.StringSingle.
 
 Theorem c05_string_single_sound_partial :
   forall p h fuel r, p <> [] ->
@@ -45,6 +47,27 @@ Theorem c05_naive_numbers_by_position :
 Proof. exact @naive_spec. Qed.
 
 (** Non-vacuity, and the executable specification at work *)
+(** strings: exactly the occurrences *)
+Theorem c05_string_single_exact :
+  forall p h fuel r, p <> [] ->
+    single string_dom fuel (s_cvec p) h = Ok r ->
+    (forall m, In m r -> exists a len, m = SBound a len /\ occ_string p h a)
+    /\ (forall a, occ_string p h a <-> exists len, In (SBound a len) r).
+Proof. exact s_single_exact. Qed.
+
+Theorem c05_string_match_exists_exact :
+  forall p h fuel b, p <> [] ->
+    match_exists string_dom fuel (s_cvec p) h = Ok b ->
+    (b = true <-> exists a, occ_string p h a).
+Proof. exact s_match_exists_exact. Qed.
+
+Theorem c05_string_naive_exact :
+  forall pats h fuel ms i p a,
+    naive string_dom fuel (map s_cvec pats) h = Ok ms ->
+    nth_error pats i = Some p -> p <> [] ->
+    ((exists len, In (N.of_nat i, SBound a len) ms) <-> occ_string p h a).
+Proof. exact s_naive_exact. Qed.
+
 Example c05_example :
   single string_dom 100 (s_cvec [Lit 97; Var 1; Var 1]%N) [98; 97; 99; 99; 97; 98; 98]%N
   = Ok [SBound 1 3; SBound 4 3]%N
@@ -57,3 +80,6 @@ Print Assumptions c05_matrix_single_sound_partial.
 Print Assumptions c05_string_match_exists_sound.
 Print Assumptions c05_matrix_match_exists_sound.
 Print Assumptions c05_naive_numbers_by_position.
+Print Assumptions c05_string_single_exact.
+Print Assumptions c05_string_match_exists_exact.
+Print Assumptions c05_string_naive_exact.
